@@ -607,6 +607,34 @@ class Extractor:
                                  rules=['R1', 'R15'], mode=self.mode, contract_clauses=0))
                 self.emit(out, linemap, txt, name, meta[-1]['id'])
                 i += 1
+            elif s.startswith('//@litrows '):
+                # R17: the per-character arms `'C' => bits.extend([1, 0]),` of a literal macro's scanner are copied as data
+                # (character, bit list); alternatives `'X' | '-'` become one row each
+                kv = parse_kv(s)
+                src = self.src(kv['file'])
+                fns = src.find_fn(kv['fn'], 0, src.limit)
+                if not fns:
+                    raise LostAnchor('%s: fn %s not found' % (kv['file'], kv['fn']))
+                f = fns[0]
+                body = src.text[f['body_open']:f['body_close'] + 1]
+                arms = re.findall(r"((?:'[^']'\s*\|\s*)*'[^']')\s*=>\s*bits\.extend\(\[([0-9,\s]*)\]\)", body)
+                n_extend = len(re.findall(r'bits\.extend\(', body))
+                if not arms or len(arms) != n_extend:
+                    raise LostAnchor('%s: fn %s: scanner arms not in the expected `CHAR => bits.extend([..])` form' % (kv['file'], kv['fn']))
+                rows = []
+                for chars, bits in arms:
+                    bl = [b.strip() for b in bits.split(',') if b.strip()]
+                    if any(b not in ('0', '1') for b in bl):
+                        raise Unsupported('R17: non-bit literal in %s' % bits)
+                    for ch in re.findall(r"'([^'])'", chars):
+                        rows.append('(%du8, seq![%s])' % (ord(ch), ', '.join(b + 'u8' for b in bl)))
+                txt = 'pub open spec fn %s() -> VSeq<(u8, VSeq<u8>)> {\n    seq![%s]\n}' % (kv['name'], ', '.join(rows))
+                meta.append(dict(id='%s::fn %s (scanner arms)' % (kv['file'].split('/src/')[-1], kv['fn']), file=kv['file'],
+                                 lines=[src.line_of(f['sig_start']), src.line_of(f['body_close'])],
+                                 sha256=hashlib.sha256(src.text[f['sig_start']:f['body_close'] + 1].encode()).hexdigest(),
+                                 rules=['R1', 'R15', 'R17'], mode=self.mode, contract_clauses=0))
+                self.emit(out, linemap, txt, name, meta[-1]['id'])
+                i += 1
             elif s.startswith('//@implclose'):
                 self.emit(out, linemap, '}', name, None)
                 i += 1
